@@ -52,3 +52,55 @@ package dtls
 //@ ensures header-seq-is-allocated: result1 == nil ==> called("Conn.nextLocalSequenceNumber") && pkt.Record.Header.SequenceNumber == retU64("Conn.nextLocalSequenceNumber", 0)
 //@ ensures one-number-per-record: ncalls("Conn.nextLocalSequenceNumber") == 1
 //@ end
+
+// Keying-material exporter (RFC 5705 / RFC 8446 7.5): what is handed to the application is keyed by
+// a handshake secret (master_secret in DTLS 1.2, exporter_master_secret in DTLS 1.3), never by a
+// value that appears in clear in the handshake (session id, randoms, nil).
+//@ define XV13(v) (v.Major == 254 && v.Minor == 252)
+
+//@ func State.ExportKeyingMaterial
+//@ watch prf.PHash! exportKeyingMaterial13
+//@ requires receiver: s != nil
+//@ ensures handshake-in-progress-refused: old(s.localEpoch) == 0 ==> result1 != nil && !called("prf.PHash!") && !called("exportKeyingMaterial13")
+//@ ensures context-refused: len(context) != 0 ==> result1 != nil && !called("prf.PHash!") && !called("exportKeyingMaterial13")
+//@ ensures exporter-keyed-by-master-secret: called("prf.PHash!") ==> sameSlice(argBytes("prf.PHash!", 0), s.masterSecret)
+//@ ensures exporter-output-is-prf: result1 == nil && !XV13(s.version) ==> called("prf.PHash!") && retErr("prf.PHash!", 1) == nil && sameSlice(result0, retBytes("prf.PHash!", 0))
+//@ ensures exporter-length: called("prf.PHash!") ==> argInt("prf.PHash!", 2) == length
+//@ ensures exporter-prf-once: ncalls("prf.PHash!") <= 1 && ncalls("exportKeyingMaterial13") <= 1
+// (engine limit: the contents of append(append([]byte(label), a[:]...), b[:]...) are not tracked, so the
+// RFC 5705 seed order client_random || server_random is only stated as a length.)
+//@ ensures exporter-seed-length: called("prf.PHash!") ==> len(argBytes("prf.PHash!", 1)) == len(label) + 64
+//@ ensures dtls13-exporter-keyed-by-exporter-secret: XV13(s.version) ==> !called("prf.PHash!") && (result1 == nil ==> called("exportKeyingMaterial13"))
+//@    && (called("exportKeyingMaterial13") ==> sameSlice(argBytes("exportKeyingMaterial13", 1), s.exporterSecret))
+//@ ensures dtls13-exporter-output: XV13(s.version) && result1 == nil ==> sameSlice(result0, retBytes("exportKeyingMaterial13", 0)) && retErr("exportKeyingMaterial13", 1) == nil
+//@ ensures dtls13-exporter-label-length: called("exportKeyingMaterial13") ==> argAs("exportKeyingMaterial13", 2, label) == label && argInt("exportKeyingMaterial13", 3) == length
+//@ ensures dtls13-no-secret-no-export: XV13(s.version) && len(s.exporterSecret) == 0 ==> result1 != nil
+//@ ensures dtls12-not-13-exporter: !XV13(s.version) ==> !called("exportKeyingMaterial13")
+//@ ensures secrets-kept: sameSlice(s.masterSecret, old(s.masterSecret)) && sameSlice(s.exporterSecret, old(s.exporterSecret))
+//@ end
+
+// RFC 8446 7.5 with an empty context:
+// HKDF-Expand-Label(Derive-Secret(exporter_master_secret, label, ""), "exporter", Hash(""), length).
+//@ func exportKeyingMaterial13
+//@ watch keyschedule.DeriveSecret keyschedule.HkdfExpandLabel!
+//@ ensures no-secret-no-export: len(exporterSecret) == 0 ==> result1 != nil && isNil(result0)
+//@ ensures no-secret-nothing-derived: len(exporterSecret) == 0 ==> !called("keyschedule.DeriveSecret") && !called("keyschedule.HkdfExpandLabel!")
+//@ ensures derive-keyed-by-exporter-secret: called("keyschedule.DeriveSecret") ==> sameSlice(argBytes("keyschedule.DeriveSecret", 1), exporterSecret)
+//@ ensures derive-label: called("keyschedule.DeriveSecret") ==> argAs("keyschedule.DeriveSecret", 2, label) == label
+//@ ensures derive-error-rejected: called("keyschedule.DeriveSecret") && retErr("keyschedule.DeriveSecret", 1) != nil ==> result1 != nil && !called("keyschedule.HkdfExpandLabel!")
+//@ ensures expand-keyed-by-derived: called("keyschedule.HkdfExpandLabel!") ==> called("keyschedule.DeriveSecret") && sameSlice(argBytes("keyschedule.HkdfExpandLabel!", 1), retBytes("keyschedule.DeriveSecret", 0))
+//@ ensures expand-label-exporter: called("keyschedule.HkdfExpandLabel!") ==> argAs("keyschedule.HkdfExpandLabel!", 2, label) == "exporter"
+//@ ensures expand-length: called("keyschedule.HkdfExpandLabel!") ==> argInt("keyschedule.HkdfExpandLabel!", 4) == length
+//@ ensures output-is-expand: result1 == nil ==> called("keyschedule.HkdfExpandLabel!") && retErr("keyschedule.HkdfExpandLabel!", 1) == nil && sameSlice(result0, retBytes("keyschedule.HkdfExpandLabel!", 0))
+//@ ensures at-most-once: ncalls("keyschedule.DeriveSecret") <= 1 && ncalls("keyschedule.HkdfExpandLabel!") <= 1
+//@ end
+
+// The exported DTLS 1.3 State carries a private copy of the exporter_master_secret of the key schedule.
+//@ func generateState13
+//@ requires args: internalState != nil && internalState.Common != nil
+//@ ensures exporter-secret-copied: result1 == nil ==> bytesEq(result0.exporterSecret, internalState.KeySchedule.ExporterMasterSecret)
+//@ ensures exporter-secret-not-aliased: result1 == nil && len(internalState.KeySchedule.ExporterMasterSecret) > 0 ==> !sameArray(result0.exporterSecret, internalState.KeySchedule.ExporterMasterSecret)
+//@ ensures version13: result1 == nil ==> XV13(result0.version)
+//@ ensures no-master-secret: result1 == nil ==> len(result0.masterSecret) == 0
+//@ ensures no-suite-refused: isNil(internalState.Common.CipherSuite) ==> result1 != nil && result0 == nil
+//@ end
